@@ -32,12 +32,18 @@ def check(repo, tier="quick"):
     res.rule("C04.a", "encoder stage list = reversed decoder stage list under {offset<->remove_offset, pad_removal<->pad_addition, idwt<->dwt}; component/transform pairing agrees; offset removal is the offset with the opposite sign")
     res.rule("C04.b", "apply_dc_prediction uses dc_prediction's predictors with the opposite sign and scans y and x in reverse; applied exactly for the parse codes the decoder de-predicts")
     res.rule("C04.c", "coefficient, orientation, level, component and slice ordering of the encoder = the decoder's read order; quantisation matrix serialisation order = quant_matrix read order")
+    res.rule("C04.e", "the forward transform is the structural inverse of the inverse transform (every obligation of the C11 check, re-evaluated here)")
+    res.rule("C04.f", "lossless slice lengths fit their field: the slice size scaler is at least ceil(longest component length / largest value of the slice length field), and every component length is divided by it rounding up")
     res.rule("C04.d", "the lossless path builds every slice with the literal qindex 0 and never calls a quantiser")
 
     rule_a(repo, res)
     rule_b(repo, res)
     rule_c(repo, res)
     rule_d(repo, res)
+    rule_e(repo, res)
+    rule_f(repo, res)
+    res.floor("C04.e", 30)
+    res.floor("C04.f", 3)
     res.floor("C04.a", 6)
     res.floor("C04.b", 6)
     res.floor("C04.c", 8)
@@ -376,3 +382,89 @@ def rule_d(repo, res):
             if any(isinstance(c, ast.Call) and dotted(c.func) == "make_transform_data_hq_lossless" for c in ast.walk(ast.Module(body=n.body, type_ignores=[]))) and not any(isinstance(c, ast.Call) and dotted(c.func) == "make_transform_data_hq_lossless" for c in ast.walk(ast.Module(body=n.orelse, type_ignores=[]))):
                 ok = True
     res.check(ok, "C04.d", "lossless:selected-by-flag", "%s:make_picture_parse" % pm.rel, "codec_features['lossless'] must select make_transform_data_hq_lossless", by="selected under the lossless flag")
+
+
+def rule_e(repo, res):
+    from . import c11
+    from ..report import Ob
+
+    sub = c11.check(repo, "quick")
+    for o in sub.obs:
+        res._add(Ob("C04.e", "%s/%s" % (o.rule, o.key), o.where, o.status, o.detail, o.by, o.path))
+
+
+def rule_f(repo, res):
+    # width of the HQ slice length fields, from the description program and the pinned decoder
+    from ..serdes_model import SerdesModel
+
+    bm, bfn = repo.func("bitstream.vc2:hq_slice")
+    widths = set()
+    for n in ast.walk(bfn):
+        if isinstance(n, ast.Call) and isinstance(n.func, ast.Attribute) and n.func.attr == "uint_lit" and len(n.args) == 2 and "length" in norm(n.args[0]) and isinstance(n.args[1], ast.Constant):
+            widths.add(n.args[1].value)
+    dm, dfn = repo.func("decoder.transform_data_syntax:hq_slice")
+    dwidths = set()
+    for n in ast.walk(dfn):
+        if isinstance(n, ast.Call) and dotted(n.func) == "read_uint_lit" and len(n.args) == 2 and isinstance(n.args[1], ast.Constant):
+            p = getattr(n, "_parent", None)
+            if isinstance(p, ast.BinOp) and isinstance(p.op, ast.Mult):
+                dwidths.add(n.args[1].value)
+    if len(widths) != 1 or widths != dwidths:
+        raise AnalysisError("hq_slice: slice length field width not recognised (serdes %s, decoder %s)" % (sorted(widths), sorted(dwidths)))
+    maxval = 2 ** (8 * widths.pop()) - 1
+    res.info["hq_slice_length_field_max"] = maxval
+    m, fn = repo.func("encoder.pictures:make_transform_data_hq_lossless")
+    where = "%s:make_transform_data_hq_lossless" % m.rel
+    ret = [n for n in ast.walk(fn) if isinstance(n, ast.Return)]
+    if len(ret) != 1 or not isinstance(ret[0].value, ast.Tuple) or not isinstance(ret[0].value.elts[0], ast.Name):
+        raise AnalysisError("make_transform_data_hq_lossless: `return scaler, transform_data` not recognised")
+    sc = ret[0].value.elts[0].id
+    defs = [n for n in ast.walk(fn) if isinstance(n, ast.Assign) and dotted(n.targets[0]) == sc]
+    ok = False
+    detail = "%s is assigned %d times" % (sc, len(defs))
+    FIELDS = {"slice_y_length", "slice_c1_length", "slice_c2_length"}
+    if len(defs) == 1:
+        v = defs[0].value
+        args = v.args if isinstance(v, ast.Call) and dotted(v.func) == "max" else [v]
+        detail = "no argument of `%s` is a rounded-up division of the longest component length by at most %d" % (short(v, 80), maxval)
+        for a in args:
+            if isinstance(a, ast.BinOp) and isinstance(a.op, ast.FloorDiv) and isinstance(a.right, ast.Constant) and isinstance(a.left, ast.BinOp) and isinstance(a.left.op, ast.Add):
+                l, r = a.left.left, a.left.right
+                if isinstance(l, ast.Constant):
+                    l, r = r, l
+                if isinstance(l, ast.Name) and isinstance(r, ast.Constant):
+                    b, add = a.right.value, r.value
+                    src = [d for d in ast.walk(fn) if isinstance(d, ast.Assign) and dotted(d.targets[0]) == l.id]
+                    covers = len(src) == 1 and FIELDS <= set(const_str(x.slice) for x in ast.walk(src[0].value) if isinstance(x, ast.Subscript)) and isinstance(src[0].value, ast.Call) and dotted(src[0].value.func) == "max"
+                    if not covers:
+                        detail = "`%s` is not the maximum over all three component lengths of every slice" % l.id
+                    elif not (1 <= b <= maxval):
+                        detail = "the scaler is ceil(%s / %d) but the length field holds at most %d: a longest component of %d bytes gets scaler %d and a scaled length of %d, which does not fit" % (l.id, b, maxval, 2 * b - 1, 2, b)
+                    elif add < b - 1:
+                        detail = "(%s + %d) // %d rounds down: a length just above a multiple of %d gets a scaler one too small" % (l.id, add, b, b)
+                    else:
+                        ok = True
+    res.check(ok, "C04.f", "lossless:scaler-bounds-length-field", where, detail, by="scaler >= ceil(max component length / %d)" % maxval)
+    # each of the three lengths is divided rounding up
+    done = set()
+    for loop in ast.walk(fn):
+        if not isinstance(loop, ast.For):
+            continue
+        adds, divs = set(), set()
+        for s_ in loop.body:
+            if isinstance(s_, ast.AugAssign) and isinstance(s_.target, ast.Subscript) and const_str(s_.target.slice) in FIELDS:
+                if isinstance(s_.op, ast.Add) and norm(s_.value) == "%s - 1" % sc:
+                    adds.add(const_str(s_.target.slice))
+                if isinstance(s_.op, ast.FloorDiv) and dotted(s_.value) == sc and const_str(s_.target.slice) in adds:
+                    divs.add(const_str(s_.target.slice))
+        done |= divs
+    res.check(done == FIELDS, "C04.f", "lossless:lengths-rounded-up", where, "each of %s must be replaced by ceil(length / scaler) (found for %s)" % (sorted(FIELDS), sorted(done)), by="+= scaler - 1 then //= scaler for all three components")
+    # the scaled lengths and scaler reach the stream: scaler stored by the caller into slice_parameters
+    callers = 0
+    for mod in repo.modules.values():
+        for n in ast.walk(mod.tree):
+            if isinstance(n, ast.Call) and dotted(n.func) == "make_transform_data_hq_lossless":
+                p = getattr(n, "_parent", None)
+                if isinstance(p, ast.Assign) and isinstance(p.targets[0], ast.Tuple) and len(p.targets[0].elts) == 2:
+                    callers += 1
+    res.check(callers >= 1, "C04.f", "lossless:scaler-used-by-caller", where, "no caller unpacks (slice_size_scaler, transform_data)", by="%d caller(s) unpack the scaler" % callers)
